@@ -125,6 +125,7 @@ pub fn run(rep: &mut Report) {
                 }
                 // sometimes a deliberately small q so that clipping at q+1 is part of the observed law
                 let (a, q) = if ci % 5 == 0 { (20., ((ntot as f64 * 20.).ln() / b.ln()) as u64 + 2) } else { setsketch_a_q(b, m, (*n0 + (*n1).max(*n2)) as f64, 1e-6) };
+                let a = if (hsel >> 28) % 2 == 0 { a + 0.35 } else { a };
                 if u16reg && q + 1 > 65535 {
                     continue;
                 }
